@@ -31,6 +31,25 @@ func Run(c *fw.Ctx) {
 		cs.SetCPUBudget(30 * time.Second)
 		runMatrix(cs, randomSmallInt(cs.R), cs.R.Chance(0.2), cs.Index%4 == 0)
 	})
+	// operands of extreme magnitude (underflow / overflow / subnormal / mixed scales / zero diagonal
+	// with tiny off-diagonal entries) and with one non-finite entry: every iterative routine, every
+	// option route, sizes 1..4
+	edCore, ed := extremeDirected()
+	c.Cases("no-return.extreme.directed", c.N(len(edCore), 2*len(ed)), func(cs *fw.Case) {
+		cs.SetCPUBudget(10 * time.Second)
+		// quick: the core list (a prefix of the full list) once, every third input with Real64 elements;
+		// thorough: the full list (all positions of the non-finite entry for n = 3, 4) and a second pass
+		// with the other element type
+		real := cs.Index%3 == 2
+		if cs.Index >= len(ed) {
+			real = !real
+		}
+		runExtreme(cs, ed[cs.Index%len(ed)], real)
+	})
+	c.Cases("no-return.extreme.random", c.N(300, 8000), func(cs *fw.Case) {
+		cs.SetCPUBudget(10 * time.Second)
+		runExtreme(cs, randomExtreme(cs.R), cs.R.Chance(0.3))
+	})
 	sc := optScenarios()
 	reps := c.N(2, 12)
 	c.Cases("no-return.optimisers", reps*len(sc), func(cs *fw.Case) {
@@ -47,4 +66,6 @@ func Run(c *fw.Ctx) {
 	})
 	/* (b) loud failure ---------------------------------------------------- */
 	runMisuse(c)
+	/* (c) in-place methods on views: return or panic, never hang -------------- */
+	runInplaceViews(c)
 }
